@@ -89,7 +89,9 @@ def run(ctx: common.Ctx):
            extra_files=['DinoProofs/Lemmas/Units.lean', 'Dino/Units.lean', 'Dino/UnitsDrv.lean'])
   ctx.assumptions.append(
       'rounding model of T18.3/T18.4: every double operation returns the exact result times (1+d), '
-      '|d| <= 2^-53 (no overflow/underflow); validated on sampled operations with exact rationals')
+      '|d| <= 2^-53 (no overflow/underflow), and is exact when the exact result is an integer below 2^53; '
+      'validated on sampled operations with exact rationals, and the model is executed with the rounding '
+      'function fl53 (proved to satisfy this model) and compared bit for bit with the doubles of the code')
   ctx.assumptions.append('pint is external: its unit table (factor to base units, dimension vector) is an '
                          'input of the model; multiplicativity of the table is checked on every compound unit')
 
@@ -426,6 +428,10 @@ def run(ctx: common.Ctx):
             hyp_worst = max(hyp_worst, r)
             hyp_ok &= r <= U53
             hyp_n += 1
+        # second half of the rounding model (`RoundingModel.exactInt`): integers below 2^53 are doubles, and an
+        # operation whose exact result is such an integer returns it (array path: rint(y) / 1e6)
+        hyp_ok &= Fraction(float(np.float64(s))) == s and float(np.rint(y) / np.float64(1e6)) == float(s)
+        hyp_n += 1
   ctx.obligation('hypothesis: |fl(x)/x - 1| <= 2^-53 on the operations of the timedelta round trip', 'hypothesis',
                  hyp_ok, f'{hyp_n} operations, worst {float(hyp_worst / U53):.3f} * 2^-53')
   ctx.notes.append(f'plain truncation (code before 35952ac) would lose {lost_by_truncation} of the whole seconds '
@@ -731,6 +737,9 @@ def run(ctx: common.Ctx):
   ctx.corr_exact('model-rat-nondim', dict(line='nondim'), q0, '275/16')
   q1 = ctx.model([f'units Q dim 2,-,3/7 5/2:1,0,-1:2;7:0,0,1:1 {q0}'])[0]
   ctx.corr_exact('model-rat-roundtrip', dict(line='dim'), q1, '11/3')
+  # timedelta round trip of the model in exact arithmetic (fl = id): nothing is lost, not even by plain truncation
+  q2 = ctx.model(['units Q td -,7539163657268239/1099511627776 0,1 27,28,-5,0'])[0]
+  ctx.corr_exact('model-rat-timedelta', dict(line='td'), q2.split(' ')[2:], ['27,28,-5,0'] * 3)
 
   if not ctx.quick:
     ctx.leanchecker(['DinoProofs.Properties.C18'])
